@@ -1,5 +1,6 @@
 import SSVerif.Props.C07
-open SSVerif.AcmodBuf
+import SSVerif.Props.C07Fe
+open SSVerif.AcmodBuf SSVerif.AcmodFe
 #print axioms C07_features_canonical
 #print axioms C07_frames_searched_const
 #print axioms C07_chunking_independent
@@ -9,3 +10,7 @@ open SSVerif.AcmodBuf
 #print axioms C07_consts_ok
 #print axioms C07_full_features_canonical
 #print axioms C07_full_equals_streaming_windows
+#print axioms C07_runUttS_eq_runUtt
+#print axioms C07_nextId_eq_frameCount
+#print axioms C07_samples_to_windows_canonical
+#print axioms C07_samples_chunking_independent
